@@ -1,10 +1,16 @@
 import ZvbiModel.Search.Model
 import ZvbiModel.Generated.SearchFlags
+import ZvbiModel.Generated.CacheLayout
 /-! The source shape of the CURRENT /repo (C17-D7 repaired or not), as translate/gen_search.py read it from
 src/cache.c and src/search.c.  The driver runs the model in this shape; Props/C17.lean states for it which of the
 shape-specific theorems applies (`current_shape`). -/
 namespace Zvbi.Search
 
 def Shape.current : Shape := ⟨Zvbi.Gen.Search.walkStartExact, Zvbi.Gen.Search.turnStopKeepsSubno⟩
+
+/-- `_vbi_cache_put_page` of the CURRENT /repo: with or without fixes/C10-put-replaces-all-versions.diff (finding F17 /
+    C17-D2), as translate/gen_cache.py read it from src/cache.c -/
+def putCur (c : Cache) (pgno subno : Nat) (func : Int) (text : Text) (tag : Nat := 0) : Cache :=
+  putF Zvbi.Gen.Cache.putReplacesAllVersions c pgno subno func text tag
 
 end Zvbi.Search
